@@ -101,6 +101,9 @@ func accumulatorOf(acc, x ssa.Value) bool {
 			sawZero = true
 			continue
 		}
+		if e == ssa.Value(phi) {
+			continue // an iteration that skips (continue) carries the sum unchanged
+		}
 		c, ok := e.(*ssa.Call)
 		if !ok || !strings.HasSuffix(callName(c.Common()), "math.Int.Add") {
 			return false
